@@ -41,6 +41,14 @@ var configs = []struct {
 	{"restricted", schema.Opts{MaxFiles: 1, NoGroups: true, NoExtensions: true, NoServices: true, NoRequired: true, NoDefaults: true, NoMaps: true, NoOptions: true}},
 }
 
+// dump writes the failing schema to a scratch file (the text is too long for the test log).
+func dump(files []*descriptorpb.FileDescriptorProto) string {
+	os.MkdirAll("/tmp/schema", 0o755)
+	p := "/tmp/schema/last-failure.txt"
+	os.WriteFile(p, []byte(strings.Join(schema.Text(files), "\n")+"\n"), 0o644)
+	return p
+}
+
 func envInt(k string, d int) int {
 	if v, err := strconv.Atoi(os.Getenv(k)); err == nil {
 		return v
@@ -75,12 +83,12 @@ func TestShakeOut(t *testing.T) {
 					total++
 					// (1) the literal acceptance test: protodesc.NewFiles on the set
 					if _, err := protodesc.NewFiles(schema.FileSet(files)); err != nil {
-						rt.Fatalf("protodesc.NewFiles rejected a generated set: %v\n%s", err, strings.Join(schema.Text(files), "\n"))
+						rt.Fatalf("protodesc.NewFiles rejected a generated set: %v (schema in %s)", err, dump(files))
 					}
 					// (2) Build (file by file, what the checks use)
 					reg, err := schema.Build(files)
 					if err != nil {
-						rt.Fatalf("schema.Build: %v\n%s", err, strings.Join(schema.Text(files), "\n"))
+						rt.Fatalf("schema.Build: %v (schema in %s)", err, dump(files))
 					}
 					// (3) Marshal / Unmarshal is faithful
 					back, err := schema.Unmarshal(schema.Marshal(files))
@@ -154,7 +162,7 @@ func checkRestrictions(rt *rapid.T, o schema.Opts, files []*descriptorpb.FileDes
 	}
 	bad := func(cond bool, what string) {
 		if cond {
-			rt.Fatalf("option violated: %s\n%s", what, strings.Join(schema.Text(files), "\n"))
+			rt.Fatalf("option violated: %s (schema in %s)", what, dump(files))
 		}
 	}
 	bad(o.MaxFiles > 0 && len(files) > o.MaxFiles, "MaxFiles")
@@ -199,7 +207,7 @@ func useDynamic(rt *rapid.T, reg interface {
 	}
 	types, err := schema.Types(r, files)
 	if err != nil {
-		rt.Fatalf("schema.Types: %v\n%s", err, strings.Join(schema.Text(files), "\n"))
+		rt.Fatalf("schema.Types: %v (schema in %s)", err, dump(files))
 	}
 	mo := vgen.DefaultMsgOpts
 	mo.Resolver = types
@@ -221,7 +229,7 @@ func useDynamic(rt *rapid.T, reg interface {
 			rt.Fatalf("Unmarshal %s: %v", md.FullName(), err)
 		}
 		if d := model.Diff(md, mv, model.Snapshot(m2), model.EqualOpts{BitwiseFloats: true}, types); d != "" {
-			rt.Fatalf("dynamicpb round trip of %s differs: %s\n%s", md.FullName(), d, strings.Join(schema.Text(files), "\n"))
+			rt.Fatalf("dynamicpb round trip of %s differs: %s (schema in %s)", md.FullName(), d, dump(files))
 		}
 		n++
 	}
